@@ -141,6 +141,17 @@ func scenarioC06(rc *RunCtx) {
 	f2.Seed = fl.Seed + 12345 // whatever the second run would generate randomly must not matter
 	variantFlag := t.Chance("c06.flag_variant", 30)
 	dir2 := dir
+	if !variantFlag && t.Chance("c06.flag_elsewhere", 15) {
+		// -rapid.failfile names some OTHER file (garbage, or a case that passes now): the stored failure is still found
+		other := filepath.Join(dir, "explicit-other.fail")
+		content := []byte("# not a fail file\n\x00\xff garbage")
+		if t.Chance("c06.flag_elsewhere_empty", 40) {
+			content = nil
+		}
+		_ = os.WriteFile(other, content, 0o644)
+		f2.FailFile = "explicit-other.fail"
+		rc.Inc("probe.explicit_flag_names_another_file")
+	}
 	if variantFlag {
 		// -rapid.failfile=<path>: move the file out of the discovery directory into a fresh tree
 		dir2 = rc.FreshDir()
